@@ -65,6 +65,35 @@ pub fn run(rep: &mut Report, backend: Bk, thorough: bool) {
     let mimes: Vec<(&str, &str)> = vec![("text/plain", "note.txt"), ("application/pdf", "doc.pdf"), ("application/octet-stream", "blob.bin"), ("audio/mpeg", "a.mp3"), ("video/mp4", "v.mp4")];
     let dec = |c: &Client, gid: &GroupId, data: &[u8], r: &MediaReference| with_mdk!(c, m => m.media_manager(gid.clone()).decrypt_from_download(data, r));
 
+    // ---- A0: file-name shapes through the announced tag ----------------------------------------------------------------
+    // the exact name bytes enter the key derivation; whatever name the sender's encrypt accepts must come back unchanged from the
+    // parsed tag and decrypt for the other member (seeded change C17-9: the tag parser trims values)
+    for name in [" lead.txt", "trail.txt ", "  both  .txt ", "in  ner.txt", "tab\tname.txt", "\u{00a0}nbsp.txt", "caf\u{e9}.txt", "x", ".hidden", "UPPER.TXT", "a.b.c.tar.gz", "semi;colon.txt", "quote\"q.txt"] {
+        let data = payload(17);
+        let up = match with_mdk!(l.a, m => m.media_manager(l.gid.clone()).encrypt_for_upload(&data, "text/plain", name)) {
+            Ok(u) => u,
+            Err(e) => {
+                rep.outcome(&format!("encrypt-refused-name:{name:?}:{}", format!("{e:?}").split('(').next().unwrap_or("")));
+                continue;
+            }
+        };
+        rep.case(&format!("name-roundtrip|{name:?}"));
+        let tag = with_mdk!(l.a, m => m.media_manager(l.gid.clone()).create_imeta_tag(&up, "https://blossom.example/f"));
+        match with_mdk!(l.b, m => m.media_manager(l.gid.clone()).parse_imeta_tag(&tag)) {
+            Ok(r) => {
+                if r.filename != up.filename {
+                    rep.finding("C17|imeta-roundtrip-changes-the-file-name".into(), format!("the tag made for file name {:?} parses back to {:?}", up.filename, r.filename), json!({"name": name, "backend": format!("{backend:?}")}));
+                }
+                match dec(&l.b, &l.gid, &up.encrypted_data, &r) {
+                    Ok(p) if p == data => {}
+                    Ok(_) => rep.finding("C17|roundtrip-different-bytes|other-member|file-name-shape".into(), format!("other member decrypts to different bytes (file name {name:?})"), json!({"name": name})),
+                    Err(e) => rep.finding("C17|roundtrip-fails|other-member|file-name-shape".into(), format!("the other member cannot decrypt a file the sender's encrypt accepted under the name {name:?}: {e:?}"), json!({"name": name, "backend": format!("{backend:?}")})),
+                }
+            }
+            Err(e) => rep.finding("C17|imeta-refused|file-name-shape".into(), format!("B cannot parse A's imeta tag for a file name A's encrypt accepted ({name:?}): {e:?}"), json!({"name": name})),
+        }
+    }
+
     // ---- A: round trip + every single-bit / single-field tamper ---------------------------------------------------
     for (mime, name) in &mimes {
         for n in sizes_small.iter().chain(sizes_big.iter()) {
